@@ -13,7 +13,8 @@ RULE = (
     "for generated schemas, every root field (and custom directive) with arguments is called end to "
     "end through graphql_blocking with each argument independently omitted / given inline / given "
     "through a whole variable / given with a nested variable, with conforming values, explicit null "
-    "and mutated (kind swapped, field removed or added, out-of-range, unknown enum name) values; a spy "
+    "and mutated (kind swapped, field removed or added, out-of-range, unknown enum name, non-finite "
+    "numbers as floats / strings / integers beyond the double range) values; a spy "
     "resolver records the keyword arguments, which are compared with the coercion model R-COERCE "
     "(exact python values incl. enum internal values, python names, declared defaults, list wrapping) "
     "and checked for conformance; inputs the model rejects must not reach the resolver; each valid "
